@@ -121,7 +121,9 @@ func (s *SpecValidator) Validate(data interface{}) (*Result, *Result) {
 	}()
 
 	// Swagger schema validator
-	schv := newSchemaValidator(s.schema, nil, "", s.KnownFormats, s.schemaOptions)
+	// built over a copy: building the validator expands the $ref of the schema in place, and the schema belongs
+	// to the caller (a document's Swagger schema would otherwise grow with every validation of that document)
+	schv := newSchemaValidator(scratchSchema(s.schema), nil, "", s.KnownFormats, s.schemaOptions)
 	errs.Merge(schv.Validate(obj)) // error -
 	// There may be a point in continuing to try and determine more accurate errors
 	if !s.Options.ContinueOnErrors && errs.HasErrors() {
